@@ -2,6 +2,7 @@
 From Coq Require Import Sorting.Sorted Sorting.Permutation.
 From VZ Require Import Base.Prelude Model.External Proofs.ExternalP.
 From VZ Require Model.ExternalIR Gen.ExternalSrc Proofs.ExternalSrcP.
+From VZ Require Model.AutoCast Gen.AutoCastSrc Proofs.AutoCastP.
 
 (* declared external types: booleans arrive as True/False, integer-valued values as integers with the same value,
    floats and internal values unchanged *)
@@ -85,3 +86,21 @@ Theorem C17_source_loop_is_the_model : forall fuel queue remaining values extern
   = to_external fuel queue remaining values external.
 Proof. exact ExternalSrcP.src_to_external_is_to_external. Qed.
 Print Assumptions C17_source_loop_is_the_model.
+
+(* the external type add_discrete_param declares (Gen/AutoCastSrc.v, regenerated from parameter_config.py on every run) is
+   INTEGER exactly when every feasible value is an integer, and a stored feasible value read through the declared type is that
+   value - a DISCRETE parameter with a value that is not an integer is never presented through int() *)
+Theorem C17_source_autocast_is_the_rule : forall flag fv,
+  AutoCast.interp_autocast AutoCastSrc.src_autocast flag fv = AutoCast.declared_ext flag fv.
+Proof. exact AutoCastP.src_autocast_is_model. Qed.
+Print Assumptions C17_source_autocast_is_the_rule.
+
+Theorem C17_source_discrete_value_presented_unchanged : forall flag fv v, In v fv ->
+  exists q, AutoCast.pyv_num (cast (AutoCast.interp_autocast AutoCastSrc.src_autocast flag fv) (YFloat v)) = Some q /\ (q == v)%Q.
+Proof. exact AutoCastP.src_presented_value_is_stored. Qed.
+Print Assumptions C17_source_discrete_value_presented_unchanged.
+
+Theorem C17_source_presented_as_int_iff_all_integral : forall fv v,
+  (exists z, cast (AutoCast.declared_ext true fv) (YFloat v) = YInt z) <-> forallb AutoCast.q_integral fv = true.
+Proof. exact AutoCastP.presented_as_int_iff. Qed.
+Print Assumptions C17_source_presented_as_int_iff_all_integral.
